@@ -103,7 +103,8 @@ def _worker(args):
         if ex.truncated:
             res['inconclusive'].append(dict(label='*', why='path/depth cap reached'))
         timeout_ms = g.get('timeout_ms', 30000 if tier == 'quick' else 300000)
-        pv = sched.Prover(timeout_ms)
+        cross = int(os.environ.get('VERIF_CROSS', '12' if tier == 'thorough' else '0'))
+        pv = sched.Prover(timeout_ms, cross_budget=cross)
         reached = False
         rnd = random.Random(seed * 1000003 + gi)
         labels_seen = set()
@@ -199,6 +200,14 @@ def _worker(args):
                 res['errors'].append(dict(path=pi, error='validation crashed: %r' % (e,), tb=traceback.format_exc()[-1500:]))
         res['queries'] += pv.queries
         res['solver_s'] += pv.solver_time
+        res['cross'] = pv.cross
+        for dz in pv.cross_disagreements:
+            if dz.get('fatal'):
+                res['errors'].append(dict(error='solver disagreement on %r: z3 %s, cvc5 %s' % (dz['label'], dz['z3'], dz['cvc5']), tb=dz.get('smt2')))
+            else:
+                res['notes'].append('cvc5 could not read an obligation (%s): %s' % (dz['label'], dz['cvc5']))
+        if pv.cross_client is not None:
+            pv.cross_client.close()
         if pv.client is not None:
             if pv.client.restarts:
                 res['notes'].append('solver process killed and restarted %d time(s) on hard timeouts' % pv.client.restarts)
@@ -215,6 +224,18 @@ def _worker(args):
         res['errors'].append(dict(error='worker crashed: %r' % (e,), tb=traceback.format_exc()[-3000:]))
     res['wall_s'] = time.time() - t0
     return res
+
+
+def _cross_summary(results):
+    tot = dict(asked=0, agree=0, unknown=0, disagree=0, errors=0, time_s=0.0)
+    for r in results:
+        for k, v in (r.get('cross') or {}).items():
+            tot[k] = tot.get(k, 0) + v
+    tot['time_s'] = round(tot['time_s'], 2)
+    tot['solver'] = 'cvc5 (python wheel), 10 s per obligation; a deterministic sample of decided non-trivial goals per group'
+    tot['rule'] = ('agree = same verdict as z3 on the identical SMT-LIB text; unknown = cvc5 timeout/unknown (counts for nothing); '
+                   'disagree = opposite verdicts -> harness error, exit 2')
+    return tot
 
 
 def _validate(g, pr, rnd, k=2):
@@ -486,6 +507,7 @@ def main(argv=None):
             groups=len(results),
             translator_validation_points=sum(r['validated'] for r in results),
             solver_time_s=round(sum(r['solver_s'] for r in results), 3),
+            second_solver=_cross_summary(results),
             functions_encoded=meta.get('functions', []),
             bounds=meta.get('bounds', {}).get(tier, meta.get('bounds', {})),
             outside_claim=meta.get('outside_claim', []),
